@@ -642,7 +642,11 @@ func (ctx *Context) evaluate() {
 			}
 
 			d := &details[len(details)-1]
-			dText := string(ctx.parser.data[d.Begin:d.End])
+			// 函数/计算值的子虚拟机运行的是预编译代码，没有源文本
+			dText := ""
+			if ctx.parser != nil && int(d.End) <= len(ctx.parser.data) {
+				dText = string(ctx.parser.data[d.Begin:d.End])
+			}
 
 			if !regexp.MustCompile("[dD][优優劣][势勢]").MatchString(dText) {
 				s := &diceStates[diceStateIndex]
